@@ -621,7 +621,13 @@ class Facts:
         if k == 'test':
             t = frozenset(atoms_of_test(n.ast, True, fr))
             f = frozenset(atoms_of_test(n.ast, False, fr))
-            return {'T': st | t, 'F': st | f, None: st, 'exc': st}
+            # an outcome that contradicts what holds on every path to the
+            # test does not happen: nothing flows along that edge
+            ts = None if any(holds(st, (not p, k)) for p, k in t) \
+                else st | t
+            fs = None if any(holds(st, (not p, k)) for p, k in f) \
+                else st | f
+            return {'T': ts, 'F': fs, None: st, 'exc': st}
         if k == 'stmt':
             a = n.ast
             if isinstance(a, ast.Assign):
